@@ -510,3 +510,18 @@ func (p *Program) MayFollow(root *ssa.Function, a, b ssa.Instruction, within map
 	}
 	return rec(root, 0)
 }
+
+// PkgPathOf returns the package path a function belongs to, also for synthetic
+// wrappers (bound methods, thunks) and anonymous functions.
+func PkgPathOf(f *ssa.Function) string {
+	for f != nil {
+		if f.Pkg != nil {
+			return f.Pkg.Pkg.Path()
+		}
+		if o := f.Object(); o != nil && o.Pkg() != nil {
+			return o.Pkg().Path()
+		}
+		f = f.Parent()
+	}
+	return ""
+}
